@@ -504,6 +504,10 @@ class NF:
                         return self._def_value(defs[0], sc, depth)
                     finally:
                         self._guard.pop()
+        if e.attr in ("pi", "inf", "e", "newaxis") and isinstance(e.value, (ast.Name, ast.Attribute)):
+            r = self.repo.resolve_expr(sc.mi, e)
+            if r in ("numpy.pi", "jax.numpy.pi", "math.pi"):
+                return Poly.atom("pi")
         base = self.poly(e.value, sc, at, depth)
         ba = base.single_atom()
         if sc.store and f"{base.canon()}.{e.attr}" in sc.store:
